@@ -257,7 +257,7 @@ class NumKernel(BaseKernel):
                 m = max(m, a)
         return m
 
-    def eq(self, a, b, label, rtol=None, atol=None):
+    def eq(self, a, b, label, rtol=None, atol=None, using=None):
         sa, va = self.flat(a)
         sb, vb = self.flat(b)
         if sa != sb:
